@@ -105,7 +105,7 @@ class StoreStream(Stream):
             elif kind == 'delete':
                 want = 'ok'
                 m.pop(o[1], None)
-            elif kind == 'get':
+            elif kind in ('get', 'poke'):
                 want = 'get:%s' % (m[o[1]] if o[1] in m else '-')
             else:
                 want = None
